@@ -31,7 +31,6 @@ from fractions import Fraction as Fr
 import numpy as np
 from hypothesis import strategies as st
 
-from .. import strategies as S
 from ..core import R, dec_arr, dec_list, drive_enum, drive_hypothesis
 from ..oracles import classify as O
 
@@ -305,11 +304,6 @@ def body_reclass_sweep(case, ctx):
 
 
 # ====================================================================== equal_interval
-
-def _is_dyadic(fr, max_bits):
-    d = fr.denominator
-    return d & (d - 1) == 0 and d.bit_length() - 1 <= max_bits
-
 
 def body_equal_interval(case, ctx):
     from xrspatial.classify import equal_interval
